@@ -41,6 +41,47 @@ func (*myErr) Error() string { return "typed nil error" }
 
 type stringer struct{}
 
+// error VALUES of every Go kind (a Go error is any value with an Error method: its dynamic type
+// need not be a pointer); index = error mode % 100
+type structErr struct{ n int }
+type strErr string
+type intErr int
+type boolErr bool
+type floatErr float64
+type arrErr [1]int
+type funcErr func()
+type mapErr map[string]int
+type sliceErr []int
+type chanErr chan int
+type ptrStructErr struct{ msg string }
+
+func (structErr) Error() string     { return "struct error" }
+func (e strErr) Error() string      { return string(e) }
+func (intErr) Error() string        { return "int error" }
+func (boolErr) Error() string       { return "bool error" }
+func (floatErr) Error() string      { return "float error" }
+func (arrErr) Error() string        { return "array error" }
+func (funcErr) Error() string       { return "func error" }
+func (mapErr) Error() string        { return "map error" }
+func (sliceErr) Error() string      { return "slice error" }
+func (chanErr) Error() string       { return "chan error" }
+func (e *ptrStructErr) Error() string { return "pointer error" }
+
+func errorValues() []error {
+	var nilMyErr *myErr
+	var nilPtrStruct *ptrStructErr
+	return []error{
+		nil, fmt.Errorf("resolver error"), nilMyErr, // the three modes of stage 1
+		structErr{1}, strErr("string error"), intErr(3), boolErr(false), floatErr(1.5), arrErr{1},
+		funcErr(nil), mapErr(nil), sliceErr(nil), chanErr(nil), // nil values of non-pointer kinds: still errors
+		mapErr{"a": 1}, funcErr(func() {}), sliceErr{1}, &ptrStructErr{"p"}, nilPtrStruct,
+		fmt.Errorf("wrapped: %w", structErr{2}),
+	}
+}
+
+// the idle handler of the schema built last: fulfils the promises its resolvers handed out
+var schemaIdle func()
+
 // hostile resolver results; index = world
 func weirdValues() []interface{} {
 	var nilPtr *objA
@@ -63,15 +104,31 @@ func weirdValues() []interface{} {
 func buildSchema(world int, weirdErr int) *graphql.Schema {
 	weird := weirdValues()
 	w := weird[world%len(weird)]
-	resolveWeird := func(graphql.FieldContext) (interface{}, error) {
-		switch weirdErr {
-		case 1:
-			return w, fmt.Errorf("resolver error")
-		case 2:
-			var e *myErr
-			return w, e // typed-nil error value
+	// error mode: e + 100*delivery.  e indexes errorValues(); delivery 0: returned by the resolver,
+	// 1: through a ResolvePromise the request's idle handler fulfils, 2: through a promise that is
+	// already fulfilled when the resolver returns
+	evs := errorValues()
+	werr := evs[(weirdErr%100)%len(evs)]
+	var pending []func()
+	schemaIdle = func() {
+		p := pending
+		pending = nil
+		for _, f := range p {
+			f()
 		}
-		return w, nil
+	}
+	resolveWeird := func(graphql.FieldContext) (interface{}, error) {
+		switch weirdErr / 100 {
+		case 1:
+			ch := make(graphql.ResolvePromise, 1)
+			pending = append(pending, func() { ch <- graphql.ResolveResult{Value: w, Error: werr} })
+			return ch, nil
+		case 2:
+			ch := make(graphql.ResolvePromise, 1)
+			ch <- graphql.ResolveResult{Value: w, Error: werr}
+			return ch, nil
+		}
+		return w, werr
 	}
 	color := &graphql.EnumType{Name: "Color", Values: map[string]*graphql.EnumValueDefinition{"RED": {Value: "RED"}, "GREEN": {Value: 2}}}
 	in := &graphql.InputObjectType{Name: "In"}
@@ -625,6 +682,7 @@ func parseVars(vars string) (map[string]interface{}, bool) {
 
 func runCase(api string, q, vars, op string, world, weirdErr int) outcome {
 	s := buildSchema(world, weirdErr)
+	idle := schemaIdle
 	vm, ok := parseVars(vars)
 	if !ok {
 		vm = nil
@@ -644,7 +702,7 @@ func runCase(api string, q, vars, op string, world, weirdErr int) outcome {
 		})
 	case "execute":
 		return guarded(func() outcome {
-			return judge(graphql.Execute(&graphql.Request{Context: context.Background(), Query: q, Schema: s, OperationName: op, VariableValues: vm}))
+			return judge(graphql.Execute(&graphql.Request{Context: context.Background(), Query: q, Schema: s, OperationName: op, VariableValues: vm, IdleHandler: idle}))
 		})
 	case "subscribe":
 		return guarded(func() outcome {
@@ -719,6 +777,7 @@ type frontObs struct {
 
 func stages(api, q, vars, op string, world, weirdErr int, fo *frontObs) sexp.Node {
 	s := buildSchema(world, weirdErr)
+	idle := schemaIdle
 	vm, _ := parseVars(vars)
 	out := []sexp.Node{}
 	var doc interface{}
@@ -758,7 +817,7 @@ func stages(api, q, vars, op string, world, weirdErr int, fo *frontObs) sexp.Nod
 	if crashed || vn.List[1].Int.Sign() != 0 || api == "validate" {
 		return sexp.T("stages", out...)
 	}
-	req := &executor.Request{Document: d, Schema: s, OperationName: op, VariableValues: vm}
+	req := &executor.Request{Document: d, Schema: s, OperationName: op, VariableValues: vm, IdleHandler: idle}
 	if api == "subscribe" {
 		sn, _ := stageNode("subscribe", func() sexp.Node {
 			_, err := executor.Subscribe(context.Background(), req)
@@ -815,6 +874,17 @@ func respNode(o outcome) sexp.Node {
 	return sexp.T("resp", sexp.Bool(hasData), sexp.Bool(null), sexp.Int(len(o.resp.Errors)))
 }
 
+func dataJSON(r *graphql.Response) sexp.Node {
+	if r.Data == nil {
+		return sexp.Str("<absent>")
+	}
+	b, err := json.Marshal(*r.Data)
+	if err != nil {
+		return sexp.Str("<unserialisable>")
+	}
+	return sexp.Str(string(b))
+}
+
 func emit(stream, api, q, vars, op string, world, weirdErr int) sexp.Node {
 	o := runCase(api, q, vars, op, world, weirdErr)
 	st := sexp.T("stages")
@@ -828,6 +898,18 @@ func emit(stream, api, q, vars, op string, world, weirdErr int) sexp.Node {
 		sexp.T("outcome", sexp.Sym(o.class), sexp.Str(o.detail)), respNode(o)}
 	// the front half of the composed model (scanner + parser + validator models from the bytes) is
 	// run on every request whose validation is the plain one (no cost rule) and whose text is short
+	if weirdErr >= 100 && api == "execute" && o.resp != nil {
+		// the same resolver answers delivered directly: the response must have the same data, and
+		// errors exactly when the promise-delivered one has
+		t := runCase(api, q, vars, op, world, weirdErr%100)
+		if t.resp != nil {
+			fields = append(fields, sexp.T("twin", sexp.T("async", dataJSON(o.resp), sexp.Int(len(o.resp.Errors))),
+				sexp.T("sync", dataJSON(t.resp), sexp.Int(len(t.resp.Errors)))))
+		} else {
+			fields = append(fields, sexp.T("twin", sexp.T("async", dataJSON(o.resp), sexp.Int(len(o.resp.Errors))),
+				sexp.T("sync", sexp.Str("<"+t.class+">"), sexp.Int(0))))
+		}
+	}
 	if expectRefused {
 		// generator intent, checked by the oracle: a document nested far beyond the parser's
 		// recursion limit must be refused with a syntax error
@@ -876,6 +958,27 @@ func main() {
 			}
 			w := w
 			h.Case(func(*rng.R) sexp.Node { return emit("weird", "serve", `{wFloat wStr}`, `{}`, "", w, 0) })
+		}
+		// 2b. the same results delivered through promises (fulfilled by the idle handler, or already
+		// fulfilled), and error VALUES of every Go kind on every route
+		nErr := len(errorValues())
+		for w := 0; w < nWeird; w++ {
+			for _, we := range []int{100, 101, 102, 200, 201} {
+				for _, q := range []string{seeds[16], `{wObj{i} lo{wNN} onn{wNN}}`} {
+					w, we, q := w, we, q
+					h.Case(func(*rng.R) sexp.Node { return emit("weird-promise", "execute", q, `{}`, "", w, we) })
+				}
+			}
+		}
+		for e := 3; e < nErr; e++ {
+			for _, d := range []int{0, 100, 200} {
+				for _, w := range []int{0, 4, 9, 13} {
+					for _, q := range []string{`{wInt wNN}`, `{o{wFloat} lo{wNN} wObj{i}}`, `{onn{wNN}}`} {
+						e, d, w, q := e, d, w, q
+						h.Case(func(*rng.R) sexp.Node { return emit("weird-error-kind", "execute", q, `{}`, "", w, e+d) })
+					}
+				}
+			}
 		}
 		// 3. hand-written cross products
 		for _, c := range crossProducts() {
